@@ -133,10 +133,22 @@ func roundTripMaps(c *core.Ctx, val interface{}, desc, shape string, choices []i
 			return rep("compare", "type", fmt.Sprintf("decoded dynamic type %v, expected %v", got, want), "")
 		}
 	}
-	// the public []byte entry point must agree with the reader entry point
-	pub := DecodePublic(enc.Bytes, tm)
-	if !pub.OK() {
-		return rep("decode", "public-api", "ToObject fails where ReadFrom succeeds: "+pub.Panic+fmt.Sprint(pub.Err), "")
+	// the public []byte entry point (bufio over the bytes) and a reader that returns one byte per Read
+	// call must give the same value as the plain reader
+	for _, alt := range []struct {
+		name string
+		res  DecRes
+	}{{"ToObject", DecodePublic(enc.Bytes, tm)}, {"a reader returning one byte per Read", DecodeTrickle(enc.Bytes, tm)}} {
+		if !alt.res.OK() {
+			return rep("decode", "other-reader", "decoding through "+alt.name+" fails where the plain reader succeeds: "+alt.res.Panic+fmt.Sprint(alt.res.Err), hexs(enc.Bytes))
+		}
+		var g *rh.Value
+		if p := core.Catch(func() { g = zoo.NewDenoter(nm).Denote(alt.res.Val) }); p != "" {
+			return rep("compare", "undenotable", "value decoded through "+alt.name+" cannot be denoted: "+p, "")
+		}
+		if d := zoo.Bisim(a, g, zoo.BisimOpts{NilEmpty: true, IgnoreTypes: true}); d != "" {
+			return rep("compare", "other-reader", "value decoded through "+alt.name+" differs at "+diffShape(d), d+" | bytes "+hexs(enc.Bytes))
+		}
 	}
 	return "ok"
 }
